@@ -201,6 +201,7 @@ def compare(ctx, c, out, res):
 
 
 def run(ctx):
+    C.source_tie(ctx, 'C04', [('taurex/util/math.py', 'interp_lin_only', 'gen_interp_lin_only'), ('taurex/util/math.py', 'intepr_bilin', 'gen_intepr_bilin'), ('taurex/util/math.py', 'interp_exp_only', 'gen_interp_exp_only'), ('taurex/util/math.py', 'interp_exp_and_lin', 'gen_interp_exp_and_lin')])
     rng = ctx.rng
     cases = [gen_case(rng) for _ in range(ctx.n(300, 3000))]
     outs, exprs, kept = [], [], []
